@@ -280,7 +280,7 @@ ALL = ["a_on", "nsteps", "k0", "j0", "c0", "k1", "j1", "c1", "k2", "j2", "c2", "
 
 def harnesses(tier: str) -> List[H]:
     out = []  # type: List[H]
-    nsteps = 2 if tier == "quick" else 3
+    nsteps = 2
     for a_on in (range(2) if tier == "quick" else range(3)):
         for k0 in range(len(STEPS)):
             params = [I("j0", 0, 0), I("c0", 0, 2)]
@@ -290,7 +290,7 @@ def harnesses(tier: str) -> List[H]:
             defaults = {"a_on": a_on, "nsteps": nsteps, "k0": k0, "ta_pre": True, "ta_post": True, "tf_pre": True,
                         "ts_pre": True}  # type: Dict[str, Any]
             if tier == "thorough":
-                params += [B("ta_pre"), B("ta_post"), B("tf_pre"), B("ts_pre")]
+                params += [B("ta_pre"), B("ts_pre")]
             for i in range(nsteps, 4):
                 defaults.update({"k%d" % i: 0, "j%d" % i: 0, "c%d" % i: 0})
             out.append(H("history_on{}_{}".format(a_on, STEPS[k0]),
